@@ -26,10 +26,10 @@ class P:
         infix, prefix, postfix, funcs = gens.builtin_ops(build.table_path())
         items = []
         nh = 250 if tier == "quick" else 20000
-        fnames = ["foo", "bar", "min", "sum"]
-        inames = ["hi", "+", "==", "in", "lo"]
-        pnames = ["neg", "-", "!", "not"]
-        snames = ["++", "--", "bang"]
+        fnames = ["foo", "bar", "min", "sum", "Foo", "MIN"]
+        inames = ["hi", "+", "==", "in", "lo", "Hi"]
+        pnames = ["neg", "-", "!", "not", "Neg"]
+        snames = ["++", "--", "bang", "Bang"]
         for _ in range(nh):
             ops, expect = [], []
             reg = {}          # (kind, name) -> hid
@@ -149,7 +149,23 @@ class P:
             for _k in range(4):
                 t = tree(rng.choice([2, 3, 4]))
                 progs_.append(("PARSE:" + hx(progs.render_min(t, PT)), progs.to_proto(t)))
-            items.append((" ".join(regs + [p for p, _ in progs_]), ("prec", len(regs), [w for _, w in progs_])))
+            ops_ = regs + [p for p, _ in progs_]
+            wants = [None] * len(regs) + [w for _, w in progs_]
+            # later phases: the SAME words are registered again with another precedence / associativity after the engine
+            # has parsed with the old ones (on the same thread, or pinned to one persistent thread): every later parse must
+            # group by the latest registration (no table, cache or thread-local copy may keep the earlier binding powers)
+            for _phase in range(rng.choice([0, 1, 1, 2])):
+                for w in rng.sample(words, rng.randint(1, len(words))):
+                    p = rng.choice(PRECS) if rng.random() < 0.5 else rng.choice([pp + d for pp in (20, 40, 50, 60, 70, 80, 90, 100, 110, 120, 200) for d in (-1, 0, 1)])
+                    right = rng.random() < 0.4
+                    PT[w] = (p, right)
+                    ops_.append("REGI:%s:%x:0:%d:0" % (hx(w), p, 1 if right else 0)); wants.append(None)
+                for _k in range(3):
+                    t = tree(rng.choice([2, 3, 4]))
+                    ops_.append("PARSE:" + hx(progs.render_min(t, PT))); wants.append(progs.to_proto(t))
+            if rng.random() < 0.3:
+                ops_ = ["@a/" + o for o in ops_]
+            items.append((" ".join(ops_), ("prec", 0, wants)))
         cases += flow.mk_cases("prec", items)
         return cases
 
@@ -192,6 +208,7 @@ class P:
                 if v == "violates": return v, "%s after this history: %s" % (src, det)
             return "ok", ""
         for want, o in zip(expect, res):
+            if want is None: continue
             p = o.split(":")
             if p[0] != "OK" or p[1] != want:
                 return "violates", "grouping under the registered table: got %s want %s" % (o[:200], want[:200])
